@@ -163,7 +163,7 @@ def frozen_to_file(sources, path):
     for s in sources:
         e = {"id": "f:%s:%s" % (VER, s["id"]), "kind": "frozen", "ver": VER, "assignable": [], "changed": False,
              "twice_eq": False, "twice_hash": False, "hashable": False, "exc": "",
-             "route_uneq": [], "route_hash_bad": [], "route_code_bad": []}
+             "route_uneq": [], "route_hash_bad": [], "route_code_bad": [], "mutable": []}
         try:
             c1 = compile(s["src"], "<v>", s.get("mode", "exec"), dont_inherit=True)
             c2 = compile(s["src"], "<v>", s.get("mode", "exec"), dont_inherit=True)
@@ -173,8 +173,11 @@ def frozen_to_file(sources, path):
             d1 = CodeData.from_code(c1)
             d2 = CodeData.from_code(c2)
             e["twice_eq"] = d1 == d2 and not (d1 != d2)
-            e["twice_hash"] = hash(d1) == hash(d2)
-            e["hashable"] = True
+            try:
+                e["twice_hash"] = hash(d1) == hash(d2)
+                e["hashable"] = True
+            except TypeError:
+                e["hashable"] = False
             # routes: the routes of one group must give equal data; ANY two equal values (whatever the route, nested code
             # data included) must hash alike and encode to identical code objects
             for d0 in [d1] + [x for x in d1.all_code_data()][1:4]:
@@ -200,14 +203,17 @@ def frozen_to_file(sources, path):
             before = json.dumps(_fpd(d1), sort_keys=True)
             seen = []
 
-            def walk(x):
+            def walk(x, path="x"):
                 if dataclasses.is_dataclass(x) and not isinstance(x, type):
                     seen.append(x)
                     for f in dataclasses.fields(x):
-                        walk(getattr(x, f.name))
-                elif isinstance(x, (tuple, frozenset)):
+                        walk(getattr(x, f.name), path + "." + f.name)
+                elif type(x) in (tuple, frozenset):
                     for y in x:
-                        walk(y)
+                        walk(y, path + "[]")
+                elif not (x is None or x is Ellipsis or type(x) in (str, bytes, int, float, complex, bool)):
+                    # a list, dict, set, bytearray ... inside a value that is supposed to be immutable
+                    e["mutable"].append("%s: %s" % (path, type(x).__name__))
 
             walk(d1)
             for x in seen:
